@@ -325,6 +325,14 @@ func (d *ColumnDetector) findVerticalGaps(fragments []text.TextFragment, pageWid
 		return nil
 	}
 
+	// The page width comes from the document's MediaBox. The histogram below is
+	// sized by it, so a missing, negative, non-finite or absurdly large width
+	// (PDF allows at most 14400 units) means no column analysis, not a huge or
+	// negative allocation.
+	if !(pageWidth > 0) || pageWidth > 1e6 {
+		return nil
+	}
+
 	// Build histogram of fragment density across X axis
 	// Use 5-point buckets for good resolution
 	bucketSize := 5.0
